@@ -23,7 +23,7 @@ TInit == Init /\ l = 1 /\ tid = -1 /\ addr = NoAddr
 TReset == /\ IsEvent("Reset")
           /\ st' = [s \in Sess |-> "absent"] /\ regs' = [s \in Sess |-> {}]
           /\ sess' = [a \in Assoc |-> NoSess] /\ circ' = [s \in Sess |-> [h \in Sims |-> "none"]]
-          /\ ev' = Ev("Init", 0, 0, "", 0) /\ out' = NoOut
+          /\ ev' = Ev("Init", 0, 0, "", 0, FALSE) /\ out' = NoOut
           /\ tid' = Rec.tid /\ addr' = NoAddr
 \* {"ev":"Cfg","clients":[{"ip":[..4],"port":p}..NA],"sims":[..NH]}: addresses of this trace
 TCfg == /\ IsEvent("Cfg")
@@ -61,7 +61,10 @@ TClient == /\ IsEvent("C")
                  /\ Env("C.label/socks", (Rec.k \in SocksBad) <=> ~r.ok)
                  /\ Env("C.label/dom", (Rec.k = "dom") <=> (r.ok /\ r.atyp = 3))
                  /\ Env("C.label/kind", Rec.k \in CKinds)
-                 /\ Client(Rec.a, h, Rec.k, Rec.s)
+                 \* the two choices the property leaves open are read off the observed public state
+                 /\ Client(Rec.a, h, Rec.k, Rec.s,
+                           \/ (Rec.k = "kill" /\ IsOpen(Rec.a, h) /\ Rec.proj.circ[sess[Rec.a]][h] # "open")
+                           \/ (Rec.k = "ucc" /\ CanClaim(Rec.a, Rec.s) /\ h \notin regs[Rec.s] /\ Rec.proj.sess[Rec.a] = Rec.s))
                  /\ Chk("C.sent " \o Rec.k \o " " \o Rec.label \o " " \o ToString(Rec.i), SentOK(r.data))
                  /\ Chk("C.state " \o Rec.k \o " " \o Rec.label \o " " \o ToString(Rec.i), ProjOK(Rec.proj))
            /\ UNCHANGED <<tid, addr>>
@@ -71,7 +74,8 @@ THost == /\ IsEvent("H")
          /\ Env("H.label/kind", Rec.k \in HKinds)
          /\ Env("H.spoof comes from a foreign IP", Rec.k = "spoof" => Rec.src.ip # addr.clients[Rec.a].ip)
          /\ Env("H.spoof is a SOCKS request", Rec.k = "spoof" => SocksStrip(Rec.data).ok)
-         /\ Host(Rec.a, HostOf(Rec.src.ip, Rec.src.port), Rec.k, Rec.s)
+         /\ LET h == HostOf(Rec.src.ip, Rec.src.port)
+            IN Host(Rec.a, h, Rec.k, Rec.s, Rec.k = "kill" /\ IsOpen(Rec.a, h) /\ Rec.proj.circ[sess[Rec.a]][h] # "open")
          /\ Chk("H.sent " \o Rec.k \o " " \o Rec.label \o " " \o ToString(Rec.i), SentOK(Rec.data))
          /\ Chk("H.state " \o Rec.k \o " " \o Rec.label \o " " \o ToString(Rec.i), ProjOK(Rec.proj))
          /\ UNCHANGED <<tid, addr>>
